@@ -95,6 +95,8 @@ def particle_swarm(
     velocities: list[list[float]] = []
 
     if initial_positions is not None:
+        # every start point the caller gives takes part: a larger list grows the swarm instead of being cut off
+        n_particles = max(n_particles, len(initial_positions))
         for pos in initial_positions:
             if len(positions) >= n_particles:
                 break
